@@ -23,7 +23,7 @@ RULE = ("Each case is one market with a generated tick size (powers of two 2^-10
         "arithmetic: exact multiple -> unchanged; power-of-two tick -> exactly floor/ceil(P/T)*T; otherwise on the grid "
         "up to 2^-50 relative, never more aggressive than P by more than P*2^-50, moved by < T + P*2^-50. Non-trivial = "
         "case containing an off-grid price; distinct by hash of (tick, prices).")
-RULE = RULE + (" (events) the runs of C14's order-mistake part and of C15 judged by the same tick oracle alone: the price an event hands to the market "
+RULE = RULE + (" One direct case in five drives an IndexMarket whose components trade on other grids (its own tick size decides). (events) the runs of C14's order-mistake part and of C15 judged by the same tick oracle alone: the price an event hands to the market "
                "(market price x (1 + rate); the asked price clipped into the band) is a limit price like any other and must be accepted on the grid, rounded away from aggressiveness.")
 ASSUMPTIONS = ["2^-50 relative slack covers the two float roundings (quotient, product) the statement allows as 'floating-point representation of the grid'"]
 
